@@ -475,3 +475,50 @@ func H_C03_BeginBlock() {
 	hi, _ := k.GetHighestPurchaseOrderID(ctx)
 	rt.Assert("C03.beginblock-keeps-highest", hi == highest)
 }
+
+// H_C14_ParamsThenBeginBlock: governance replaces the enterprise parameters (any set accepted by
+// UpdateParams, including a different denomination and a different signer set) between the
+// acceptance of an order and the block that mints it; the begin blocker must not panic.
+func H_C14_ParamsThenBeginBlock() {
+	now := AnyBlockTime("now")
+	ee := NewEntEnvOn(NewEnv(now, false), 0)
+	k, ctx := ee.K, ee.Ctx
+	nowSec := uint64(now.Unix())
+	k.SetHighestPurchaseOrderID(ctx, 10)
+	books := setupBooksOpt(ee, true)
+	ee.Bank.AddBase(Addr(0))
+	ee.Bank.AddBase(Addr(1))
+	acc := anyOrder("a0", 3, Addr(rt.Choose(2)), enttypes.StatusAccepted, 0, nowSec)
+	_ = k.SetPurchaseOrder(ctx, acc)
+	k.AddPoToAcceptedQueue(ctx, 3)
+	rsd := anyOrder("r0", 5, Addr(1), enttypes.StatusRaised, 1, nowSec)
+	_ = k.SetPurchaseOrder(ctx, rsd)
+	k.AddPoToRaisedQueue(ctx, 5)
+	// new parameters: any denomination, 1..2 signers of the pool, symbolic thresholds
+	newDenom := "nund"
+	if rt.Choose(2) == 1 {
+		newDenom = rt.Str("q.denom")
+	}
+	ns := 1 + rt.Choose(2)
+	signers := Signer(0).String()
+	if ns == 2 {
+		signers = signers + "," + Signer(2).String()
+	}
+	p2 := enttypes.Params{EntSigners: signers, Denom: newDenom, MinAccepts: rt.U64("q.minAccepts"), DecisionTimeLimit: rt.U64("q.decisionLimit")}
+	srv := entkeeper.NewMsgServerImpl(k)
+	_, uerr := srv.UpdateParams(sdk.WrapSDKContext(ctx), &enttypes.MsgUpdateParams{Authority: Authority(), Params: p2})
+	if uerr != nil {
+		return
+	}
+	rt.Reach("params-updated")
+	rt.Known("C14-denom-change-before-mint", newDenom != "nund")
+	panicked := rt.Catch(func() { enterprise.BeginBlocker(ctx, k) })
+	rt.Assert("C14.beginblock-no-panic-after-param-change", !panicked)
+	if panicked {
+		return
+	}
+	rt.Reach("beginblock-ok")
+	po, _ := k.GetPurchaseOrder(ctx, 3)
+	rt.Assert("C03.accepted-completed-despite-param-change", po.Status == enttypes.StatusCompleted)
+	_ = books
+}
